@@ -33,10 +33,10 @@ Print Assumptions C10_before_end_refuted_batching.
 
 (* ---- "none before the start" ---- *)
 
-(* client subscribe command, code as it stands: joins, leaves and publications that carry
+(* client subscribe command ([client_like c] with c_var c = VClient), code as it stands: joins, leaves and publications that carry
    an offset never precede the subscribe reply (positioned or not) ... *)
 Theorem C10_client_after_start_partial : forall c ls s,
-  c_var c = VClient -> c_fix_off0 c = false -> c_batch c = false ->
+  client_like c = true -> c_fix_off0 c = false -> c_batch c = false ->
   run c init ls = Some s -> no_real_push_before_start (log s) = true.
 Proof. exact c10_client_after_start_real. Qed.
 Print Assumptions C10_client_after_start_partial.
@@ -49,17 +49,18 @@ Proof. exact c10_refuted_offset0. Qed.
 Print Assumptions C10_client_after_start_refuted_offset0.
 
 (* with the proposed patch (Offset == 0 branch checks flagSubscribed) the full statement
-   holds on the client path *)
+   holds on the client path -- and on the server-side path once Client.Subscribe writes its
+   push before the commit ([client_like c]: c_var = VClient, or VServer with c_fix_srvorder) *)
 Theorem C10_client_after_start_patched : forall c ls s,
-  c_var c = VClient -> c_fix_off0 c = true -> c_batch c = false ->
+  client_like c = true -> c_fix_off0 c = true -> c_batch c = false ->
   run c init ls = Some s -> AfterStart (log s).
 Proof. intros. apply after_start_spec. eapply c10_client_after_start_patched; eauto. Qed.
 Print Assumptions C10_client_after_start_patched.
 
-(* server-side Client.Subscribe: only positioned publications are held back until the
+(* server-side Client.Subscribe as it stands ([client_like c = false]: VServer, commit before push): only positioned publications are held back until the
    subscribe push (they sit behind the locked recovery buffer) ... *)
 Theorem C10_server_after_start_partial : forall c ls s,
-  c_var c = VServer -> c_pos c = true -> c_batch c = false ->
+  client_like c = false -> c_pos c = true -> c_batch c = false ->
   run c init ls = Some s -> no_pos_pub_before_start (log s) = true.
 Proof. exact c10_server_after_start_positioned. Qed.
 Print Assumptions C10_server_after_start_partial.
@@ -75,6 +76,13 @@ Theorem C10_server_after_start_refuted_pub :
 Proof. exact c10_refuted_server_pub. Qed.
 Print Assumptions C10_server_after_start_refuted_pub.
 
+Example C10_client_like_client : forall p r s e j a b bt o f1 f2, client_like (mkCfg VClient p r s e j a b bt o f1 f2) = true.
+Proof. reflexivity. Qed.
+Example C10_client_like_server_patched : forall p r s e j a b bt o f2, client_like (mkCfg VServer p r s e j a b bt o true f2) = true.
+Proof. reflexivity. Qed.
+Example C10_client_like_server_current : forall p r s e j a b bt o f2, client_like (mkCfg VServer p r s e j a b bt o false f2) = false.
+Proof. reflexivity. Qed.
+
 (* ---- the oracle evaluated on the implementation's transport log is the specification ---- *)
 Theorem C10_oracle_spec : forall l, c10_oracle l = true <-> C10Spec l.
 Proof. exact c10_oracle_spec. Qed.
@@ -82,7 +90,7 @@ Print Assumptions C10_oracle_spec.
 
 (* ---- non-vacuity: a run with joins and publications inside the bracket ---- *)
 Example C10_reachable :
-  option_map log (run (mkCfg VClient false false 0 0 true false false false false) init
+  option_map log (run (mkCfg VClient false false 0 0 true false false false false false false) init
     [LReserve; LStartBuf; LHubAdd; LHistRead; LMerge; LWriteReply; LCommit; LStopBuf;
      LJoinEv; LDeliver 0%nat false; LCheck; LEnqueue;
      LPublish false 100%nat; LDeliver 0%nat false; LSync; LCheck; LEnqueue;
